@@ -226,22 +226,21 @@ class NoOp(Opcode):
         pass
 
 
-def raw_unicode_escape(byte_string: bytes) -> str:
-    s = []
-    for b in byte_string:
-        if 32 <= b <= 128:
-            # this is printable ASCII
-            s.append(chr(b))
-        elif b == ord("\n"):
-            s.append("\\n")
-        elif b == ord("\r"):
-            s.append("\\r")
-        elif b == ord("\\"):
-            s.append("\\\\")
-        else:
-            s.append(f"\\u{b:04x}")
-    s.append("\n")
-    return "".join(s)
+def raw_unicode_escape(byte_string: Union[bytes, str]) -> str:
+    """Escapes text the way pickle's protocol 0 does for the UNICODE opcode, which is decoded with
+    the `raw-unicode-escape` codec up to the next newline: only \\uXXXX/\\UXXXXXXXX escapes exist, so
+    the backslash itself, NUL, newline, carriage return and ^Z have to be written as such escapes"""
+    if isinstance(byte_string, str):
+        text = byte_string
+    else:
+        text = byte_string.decode("utf-8")
+    text = text.replace("\\", "\\u005c")
+    text = text.replace("\0", "\\u0000")
+    text = text.replace("\n", "\\u000a")
+    text = text.replace("\r", "\\u000d")
+    text = text.replace("\x1a", "\\u001a")
+    # characters below 256 are left as single bytes by this codec, so map them back 1:1
+    return text.encode("raw-unicode-escape").decode("latin-1") + "\n"
 
 
 class ConstantOpcode(Opcode):
@@ -1325,7 +1324,7 @@ class Unicode(ConstantOpcode):
         return obj.encode("utf-8")
 
     def encode_body(self) -> bytes:
-        return raw_unicode_escape(self.arg).encode("utf-8")
+        return raw_unicode_escape(self.arg).encode("latin-1")
 
 
 class String(ConstantOpcode):
